@@ -36,14 +36,14 @@ func init() {
 
 // ---- literals -------------------------------------------------------------------------------------
 
-var rlStNames = []string{"SReq", "SPeerReq", "SEst", "SDis"}
-var rlStVals = []int{nebula.VerifRelayRequested, nebula.VerifRelayPeerRequested, nebula.VerifRelayEstablished, nebula.VerifRelayDisestablished}
-var rlTyNames = []string{"TFwd", "TTerm"}
-var rlTyVals = []int{nebula.VerifRelayForwardingType, nebula.VerifRelayTerminalType}
-var rlEncNames = []string{"EV2", "EV1", "EV1six"}
+var rlyStNames = []string{"SReq", "SPeerReq", "SEst", "SDis"}
+var rlyStVals = []int{nebula.VerifRelayRequested, nebula.VerifRelayPeerRequested, nebula.VerifRelayEstablished, nebula.VerifRelayDisestablished}
+var rlyTyNames = []string{"TFwd", "TTerm"}
+var rlyTyVals = []int{nebula.VerifRelayForwardingType, nebula.VerifRelayTerminalType}
+var rlyEncNames = []string{"EV2", "EV1", "EV1six"}
 
-func rlStIdx(v int) int {
-	for i, x := range rlStVals {
+func rlyStIdx(v int) int {
+	for i, x := range rlyStVals {
 		if x == v {
 			return i
 		}
@@ -51,8 +51,8 @@ func rlStIdx(v int) int {
 	panic(fmt.Sprintf("relay state %d is none of Requested/PeerRequested/Established/Disestablished", v))
 }
 
-func rlTyIdx(v int) int {
-	for i, x := range rlTyVals {
+func rlyTyIdx(v int) int {
+	for i, x := range rlyTyVals {
 		if x == v {
 			return i
 		}
@@ -60,10 +60,10 @@ func rlTyIdx(v int) int {
 	panic(fmt.Sprintf("relay type %d is neither ForwardingType nor TerminalType", v))
 }
 
-var rlTwo32 = new(big.Int).Lsh(big.NewInt(1), 32)
+var rlyTwo32 = new(big.Int).Lsh(big.NewInt(1), 32)
 
 // overlay address as a number: IPv4 < 2^32 <= IPv6
-func rlAddr(a netip.Addr) string {
+func rlyAddr(a netip.Addr) string {
 	if !a.IsValid() {
 		panic("invalid address in literal")
 	}
@@ -73,23 +73,23 @@ func rlAddr(a netip.Addr) string {
 	}
 	b := a.As16()
 	v := new(big.Int).SetBytes(b[:])
-	return v.Add(v, rlTwo32).String()
+	return v.Add(v, rlyTwo32).String()
 }
 
-func rlAddrKey(a netip.Addr) *big.Int {
-	v, _ := new(big.Int).SetString(rlAddr(a), 10)
+func rlyAddrKey(a netip.Addr) *big.Int {
+	v, _ := new(big.Int).SetString(rlyAddr(a), 10)
 	return v
 }
 
-func rlAddrs(as []netip.Addr) string {
+func rlyAddrs(as []netip.Addr) string {
 	s := make([]string, len(as))
 	for i, a := range as {
-		s[i] = rlAddr(a)
+		s[i] = rlyAddr(a)
 	}
 	return hx.List(s)
 }
 
-func rlU32s(xs []uint32) string {
+func rlyU32s(xs []uint32) string {
 	s := make([]string, len(xs))
 	for i, x := range xs {
 		s[i] = hx.N(uint64(x))
@@ -97,41 +97,41 @@ func rlU32s(xs []uint32) string {
 	return hx.List(s)
 }
 
-func rlV4(x byte) netip.Addr { return netip.AddrFrom4([4]byte{10, 0, 0, x}) }
-func rlV6(x byte) netip.Addr {
+func rlyV4(x byte) netip.Addr { return netip.AddrFrom4([4]byte{10, 0, 0, x}) }
+func rlyV6(x byte) netip.Addr {
 	return netip.AddrFrom16([16]byte{0xfd, 0, 0, 0, 0, 0, 0, 0, 0, 0, 0, 0, 0, 0, 0, x})
 }
 
 // ---- abstract rows ---------------------------------------------------------------------------------
 
-type rlQRow struct {
+type rlyQRow struct {
 	Enc           int
 	Am, FromMe, TgtMe bool
 	Ex            int // -1 none, else state*2 + match
 	Peer          int // -1 unknown, else valid*5 + (0 none | 1 + state)
 }
 
-func rlOptStMatch(v int) string {
+func rlyOptStMatch(v int) string {
 	if v < 0 {
 		return "None"
 	}
-	return hx.Some(hx.Tuple(rlStNames[v/2], hx.Bool(v%2 == 1)))
+	return hx.Some(hx.Tuple(rlyStNames[v/2], hx.Bool(v%2 == 1)))
 }
 
-func (r rlQRow) lit() string {
+func (r rlyQRow) lit() string {
 	peer := "None"
 	if r.Peer >= 0 {
 		rel := "None"
 		if r.Peer%5 > 0 {
-			rel = hx.Some(rlStNames[r.Peer%5-1])
+			rel = hx.Some(rlyStNames[r.Peer%5-1])
 		}
 		peer = hx.Some(hx.Tuple(hx.Bool(r.Peer/5 == 1), rel))
 	}
-	return hx.App("mkQ", rlEncNames[r.Enc], hx.Bool(r.Am), hx.Bool(r.FromMe), hx.Bool(r.TgtMe), rlOptStMatch(r.Ex), peer)
+	return hx.App("mkQ", rlyEncNames[r.Enc], hx.Bool(r.Am), hx.Bool(r.FromMe), hx.Bool(r.TgtMe), rlyOptStMatch(r.Ex), peer)
 }
 
-func rlAllQRows() []rlQRow {
-	var rows []rlQRow
+func rlyAllQRows() []rlyQRow {
+	var rows []rlyQRow
 	bs := []bool{false, true}
 	for e := 0; e < 3; e++ {
 		for _, am := range bs {
@@ -139,7 +139,7 @@ func rlAllQRows() []rlQRow {
 				for _, tm := range bs {
 					for ex := -1; ex < 8; ex++ {
 						for p := -1; p < 10; p++ {
-							rows = append(rows, rlQRow{e, am, fm, tm, ex, p})
+							rows = append(rows, rlyQRow{e, am, fm, tm, ex, p})
 						}
 					}
 				}
@@ -149,28 +149,28 @@ func rlAllQRows() []rlQRow {
 	return rows
 }
 
-type rlXRow struct {
+type rlyXRow struct {
 	Enc  int
 	Rec  int // -1 none, else (type*4 + state)*2 + match
 	Peer int // -1 unknown, 0 known without record, 1 + state
 }
 
-func (r rlXRow) lit() string {
+func (r rlyXRow) lit() string {
 	rec := "None"
 	if r.Rec >= 0 {
-		rec = hx.Some(hx.Tuple(rlTyNames[r.Rec/8], rlStNames[(r.Rec/2)%4], hx.Bool(r.Rec%2 == 1)))
+		rec = hx.Some(hx.Tuple(rlyTyNames[r.Rec/8], rlyStNames[(r.Rec/2)%4], hx.Bool(r.Rec%2 == 1)))
 	}
 	peer := "None"
 	if r.Peer == 0 {
 		peer = "(Some None)"
 	} else if r.Peer > 0 {
-		peer = hx.Some(hx.Some(rlStNames[r.Peer-1]))
+		peer = hx.Some(hx.Some(rlyStNames[r.Peer-1]))
 	}
-	return hx.App("mkX", rlEncNames[r.Enc], rec, peer)
+	return hx.App("mkX", rlyEncNames[r.Enc], rec, peer)
 }
 
-func rlAllXRows() []rlXRow {
-	var rows []rlXRow
+func rlyAllXRows() []rlyXRow {
+	var rows []rlyXRow
 	for e := 0; e < 3; e++ {
 		for rec := -1; rec < 16; rec++ {
 			for p := -1; p < 5; p++ {
@@ -180,23 +180,23 @@ func rlAllXRows() []rlXRow {
 				if e == 2 && p < 0 {
 					continue // "the peer's first address is IPv6" needs a peer
 				}
-				rows = append(rows, rlXRow{e, rec, p})
+				rows = append(rows, rlyXRow{e, rec, p})
 			}
 		}
 	}
 	return rows
 }
 
-type rlAct struct {
+type rlyAct struct {
 	H, P, S string
 	Hs      bool
 }
 
-func (a rlAct) lit() string { return hx.App("mkA", a.H, a.P, a.S, hx.Bool(a.Hs)) }
+func (a rlyAct) lit() string { return hx.App("mkA", a.H, a.P, a.S, hx.Bool(a.Hs)) }
 
 // ---- abstraction of one handler run -------------------------------------------------------------------
 
-func rlFindRec(t nebula.VerifRelayTun, peer netip.Addr) *nebula.VerifRelayRec {
+func rlyFindRec(t nebula.VerifRelayTun, peer netip.Addr) *nebula.VerifRelayRec {
 	for i := range t.Recs {
 		if t.Recs[i].Peer == peer {
 			return &t.Recs[i]
@@ -205,7 +205,7 @@ func rlFindRec(t nebula.VerifRelayTun, peer netip.Addr) *nebula.VerifRelayRec {
 	return nil
 }
 
-func rlFindIdx(t nebula.VerifRelayTun, idx uint32) *nebula.VerifRelayRec {
+func rlyFindIdx(t nebula.VerifRelayTun, idx uint32) *nebula.VerifRelayRec {
 	for i := range t.Recs {
 		if t.Recs[i].Local == idx {
 			return &t.Recs[i]
@@ -214,9 +214,9 @@ func rlFindIdx(t nebula.VerifRelayTun, idx uint32) *nebula.VerifRelayRec {
 	return nil
 }
 
-// rlClassify turns the before/after of one record into an abstract action. msgIdx is the index the message
+// rlyClassify turns the before/after of one record into an abstract action. msgIdx is the index the message
 // carries for it; withRemote says whether a created record must hold msgIdx (else 0).
-func rlClassify(before, after *nebula.VerifRelayRec, msgIdx uint32, withRemote bool, isH bool) (string, error) {
+func rlyClassify(before, after *nebula.VerifRelayRec, msgIdx uint32, withRemote bool, isH bool) (string, error) {
 	none, pre := "PNone", "P"
 	if isH {
 		none, pre = "HNone", "H"
@@ -234,7 +234,7 @@ func rlClassify(before, after *nebula.VerifRelayRec, msgIdx uint32, withRemote b
 		if after.Remote != want {
 			return "", fmt.Errorf("created record holds remote index %d, expected %d", after.Remote, want)
 		}
-		return fmt.Sprintf("(%sCreate %s %s)", pre, rlTyNames[rlTyIdx(after.Type)], rlStNames[rlStIdx(after.State)]), nil
+		return fmt.Sprintf("(%sCreate %s %s)", pre, rlyTyNames[rlyTyIdx(after.Type)], rlyStNames[rlyStIdx(after.State)]), nil
 	}
 	if before.Peer != after.Peer || before.Local != after.Local || before.Type != after.Type {
 		return "", fmt.Errorf("a record changed its peer, local index or type")
@@ -243,7 +243,7 @@ func rlClassify(before, after *nebula.VerifRelayRec, msgIdx uint32, withRemote b
 		return none, nil
 	}
 	if before.Remote == after.Remote {
-		return fmt.Sprintf("(%sSet %s)", pre, rlStNames[rlStIdx(after.State)]), nil
+		return fmt.Sprintf("(%sSet %s)", pre, rlyStNames[rlyStIdx(after.State)]), nil
 	}
 	if isH && after.Remote == msgIdx && after.State == nebula.VerifRelayEstablished {
 		return "HComplete", nil
@@ -251,8 +251,8 @@ func rlClassify(before, after *nebula.VerifRelayRec, msgIdx uint32, withRemote b
 	return "", fmt.Errorf("unexpected record change %+v -> %+v", *before, *after)
 }
 
-// rlFrame checks that nothing but the designated records (tunnel, peer address) changed.
-func rlFrame(b, a nebula.VerifRelayDump, allowed map[[2]string]bool) error {
+// rlyFrame checks that nothing but the designated records (tunnel, peer address) changed.
+func rlyFrame(b, a nebula.VerifRelayDump, allowed map[[2]string]bool) error {
 	if b.Am != a.Am {
 		return fmt.Errorf("am_relay changed")
 	}
@@ -271,7 +271,7 @@ func rlFrame(b, a nebula.VerifRelayDump, allowed map[[2]string]bool) error {
 		seen := map[netip.Addr]bool{}
 		for _, r := range at.Recs {
 			seen[r.Peer] = true
-			br := rlFindRec(bt, r.Peer)
+			br := rlyFindRec(bt, r.Peer)
 			if allowed[[2]string{fmt.Sprint(id), r.Peer.String()}] {
 				if br == nil {
 					created[r.Local] = id
@@ -315,7 +315,7 @@ func rlFrame(b, a nebula.VerifRelayDump, allowed map[[2]string]bool) error {
 	return nil
 }
 
-type rlSituation struct {
+type rlySituation struct {
 	w       *nebula.VerifRelayWorld
 	h, p    int // arrival tunnel, other tunnel (-1: none)
 	wire    nebula.VerifRelayWire
@@ -326,58 +326,58 @@ type rlSituation struct {
 	desc    map[string]any
 }
 
-func rlRandIdx(c *hx.Ctx) uint32 { return uint32(1 + c.Intn(1<<20)) }
+func rlyRandIdx(c *hx.Ctx) uint32 { return uint32(1 + c.Intn(1<<20)) }
 
-// rlBuildQ builds a concrete situation with the features of row r.
-func rlBuildQ(c *hx.Ctx, r rlQRow) rlSituation {
+// rlyBuildQ builds a concrete situation with the features of row r.
+func rlyBuildQ(c *hx.Ctx, r rlyQRow) rlySituation {
 	v1 := r.Enc != 0
-	me := []netip.Addr{rlV4(1)}
+	me := []netip.Addr{rlyV4(1)}
 	if c.Chance(0.4) {
-		me = append(me, rlV6(1))
+		me = append(me, rlyV6(1))
 	}
 	if c.Chance(0.2) && len(me) == 2 && !v1 {
 		me[0], me[1] = me[1], me[0]
 	}
 	w := nebula.VerifRelayNewWorld(me, r.Am)
-	pick4 := func(lo int) netip.Addr { return rlV4(byte(lo + c.Intn(20))) }
+	pick4 := func(lo int) netip.Addr { return rlyV4(byte(lo + c.Intn(20))) }
 	pick := func(lo int) netip.Addr {
 		if v1 || c.Chance(0.6) {
 			return pick4(lo)
 		}
-		return rlV6(byte(lo + c.Intn(20)))
+		return rlyV6(byte(lo + c.Intn(20)))
 	}
 	// arrival tunnel: first address family is a feature under v1
 	var haddrs []netip.Addr
 	switch r.Enc {
 	case 2:
-		haddrs = []netip.Addr{rlV6(byte(40 + c.Intn(10)))}
+		haddrs = []netip.Addr{rlyV6(byte(40 + c.Intn(10)))}
 		if c.Chance(0.5) {
-			haddrs = append(haddrs, rlV4(byte(40+c.Intn(10))))
+			haddrs = append(haddrs, rlyV4(byte(40+c.Intn(10))))
 		}
 	case 1:
-		haddrs = []netip.Addr{rlV4(byte(40 + c.Intn(10)))}
+		haddrs = []netip.Addr{rlyV4(byte(40 + c.Intn(10)))}
 		if c.Chance(0.3) {
-			haddrs = append(haddrs, rlV6(byte(40+c.Intn(10))))
+			haddrs = append(haddrs, rlyV6(byte(40+c.Intn(10))))
 		}
 	default:
 		if c.Chance(0.7) {
-			haddrs = []netip.Addr{rlV4(byte(40 + c.Intn(10)))}
+			haddrs = []netip.Addr{rlyV4(byte(40 + c.Intn(10)))}
 		} else {
-			haddrs = []netip.Addr{rlV6(byte(40 + c.Intn(10)))}
+			haddrs = []netip.Addr{rlyV6(byte(40 + c.Intn(10)))}
 		}
 	}
 	// an unrelated older tunnel for the same peer now and then: the arrival tunnel need not be primary... it is the
 	// newest, hence primary; promoting it again changes nothing
 	if c.Chance(0.3) {
-		w.AddTunnel(haddrs, rlRandIdx(c), true, c.Chance(0.5))
+		w.AddTunnel(haddrs, rlyRandIdx(c), true, c.Chance(0.5))
 	}
-	h := w.AddTunnel(haddrs, rlRandIdx(c), true, c.Chance(0.5))
+	h := w.AddTunnel(haddrs, rlyRandIdx(c), true, c.Chance(0.5))
 	// from / target
 	var from, target netip.Addr
 	if r.FromMe {
 		from = me[c.Intn(len(me))]
 		if v1 {
-			from = rlV4(1)
+			from = rlyV4(1)
 		}
 	} else if c.Chance(0.5) {
 		from = haddrs[c.Intn(len(haddrs))] // honest
@@ -390,13 +390,13 @@ func rlBuildQ(c *hx.Ctx, r rlQRow) rlSituation {
 	if r.TgtMe {
 		target = me[c.Intn(len(me))]
 		if v1 {
-			target = rlV4(1)
+			target = rlyV4(1)
 		}
 	} else {
 		target = pick(100)
 	}
-	init := rlRandIdx(c)
-	s := rlSituation{w: w, h: h, p: -1, hKey: target, pKey: from}
+	init := rlyRandIdx(c)
+	s := rlySituation{w: w, h: h, p: -1, hKey: target, pKey: from}
 	if r.TgtMe {
 		s.hKey = from
 	}
@@ -405,12 +405,12 @@ func rlBuildQ(c *hx.Ctx, r rlQRow) rlSituation {
 		if c.Chance(0.3) {
 			paddrs = append(paddrs, pick(130))
 		}
-		s.p = w.AddTunnel(paddrs, rlRandIdx(c), r.Peer/5 == 1, c.Chance(0.5))
+		s.p = w.AddTunnel(paddrs, rlyRandIdx(c), r.Peer/5 == 1, c.Chance(0.5))
 		if rel := r.Peer % 5; rel > 0 {
-			w.ForceRecord(s.p, from, rlRandIdx(c)+1<<21, uint32(c.Intn(1<<20)), rlTyVals[c.Intn(2)], rlStVals[rel-1])
+			w.ForceRecord(s.p, from, rlyRandIdx(c)+1<<21, uint32(c.Intn(1<<20)), rlyTyVals[c.Intn(2)], rlyStVals[rel-1])
 		}
 		if c.Chance(0.3) {
-			w.ForceRecord(s.p, pick(160), rlRandIdx(c)+2<<21, rlRandIdx(c), rlTyVals[c.Intn(2)], rlStVals[c.Intn(4)])
+			w.ForceRecord(s.p, pick(160), rlyRandIdx(c)+2<<21, rlyRandIdx(c), rlyTyVals[c.Intn(2)], rlyStVals[c.Intn(4)])
 		}
 	}
 	if r.Ex >= 0 {
@@ -418,21 +418,21 @@ func rlBuildQ(c *hx.Ctx, r rlQRow) rlSituation {
 		if r.Ex%2 == 0 {
 			rem = init + 1 + uint32(c.Intn(1000))
 		}
-		w.ForceRecord(h, s.hKey, rlRandIdx(c)+3<<21, rem, rlTyVals[c.Intn(2)], rlStVals[r.Ex/2])
+		w.ForceRecord(h, s.hKey, rlyRandIdx(c)+3<<21, rem, rlyTyVals[c.Intn(2)], rlyStVals[r.Ex/2])
 	}
 	if c.Chance(0.4) {
 		other := pick(190)
 		if other != s.hKey {
-			w.ForceRecord(h, other, rlRandIdx(c)+4<<21, rlRandIdx(c), rlTyVals[c.Intn(2)], rlStVals[c.Intn(4)])
+			w.ForceRecord(h, other, rlyRandIdx(c)+4<<21, rlyRandIdx(c), rlyTyVals[c.Intn(2)], rlyStVals[c.Intn(4)])
 		}
 	}
 	if c.Chance(0.3) { // a bystander
-		b := w.AddTunnel([]netip.Addr{pick(220)}, rlRandIdx(c), true, false)
-		w.ForceRecord(b, from, rlRandIdx(c)+5<<21, init, rlTyVals[c.Intn(2)], rlStVals[c.Intn(4)])
+		b := w.AddTunnel([]netip.Addr{pick(220)}, rlyRandIdx(c), true, false)
+		w.ForceRecord(b, from, rlyRandIdx(c)+5<<21, init, rlyTyVals[c.Intn(2)], rlyStVals[c.Intn(4)])
 	}
-	s.wire = nebula.VerifRelayWire{Typ: nebula.VerifRelayCtlRequest, Init: init, Resp: uint32(c.Intn(3)) * rlRandIdx(c)}
+	s.wire = nebula.VerifRelayWire{Typ: nebula.VerifRelayCtlRequest, Init: init, Resp: uint32(c.Intn(3)) * rlyRandIdx(c)}
 	if v1 {
-		s.wire.OldFrom, s.wire.OldTo = rlU32(from), rlU32(target)
+		s.wire.OldFrom, s.wire.OldTo = rlyU32(from), rlyU32(target)
 		if c.Chance(0.2) { // v2 fields present as well: the v1 fields win
 			s.wire.From, s.wire.To = pick(60), pick(100)
 		}
@@ -443,59 +443,59 @@ func rlBuildQ(c *hx.Ctx, r rlQRow) rlSituation {
 	return s
 }
 
-func rlU32(a netip.Addr) uint32 {
+func rlyU32(a netip.Addr) uint32 {
 	b := a.As4()
 	return uint32(b[0])<<24 | uint32(b[1])<<16 | uint32(b[2])<<8 | uint32(b[3])
 }
 
-// rlBuildX builds a concrete situation with the features of response row r.
-func rlBuildX(c *hx.Ctx, r rlXRow) rlSituation {
+// rlyBuildX builds a concrete situation with the features of response row r.
+func rlyBuildX(c *hx.Ctx, r rlyXRow) rlySituation {
 	v1 := r.Enc != 0
-	me := []netip.Addr{rlV4(1)}
+	me := []netip.Addr{rlyV4(1)}
 	if c.Chance(0.4) {
-		me = append(me, rlV6(1))
+		me = append(me, rlyV6(1))
 	}
 	w := nebula.VerifRelayNewWorld(me, c.Chance(0.5))
 	pick := func(lo int) netip.Addr {
 		if v1 || c.Chance(0.6) {
-			return rlV4(byte(lo + c.Intn(20)))
+			return rlyV4(byte(lo + c.Intn(20)))
 		}
-		return rlV6(byte(lo + c.Intn(20)))
+		return rlyV6(byte(lo + c.Intn(20)))
 	}
 	anyAddr := func(lo int) netip.Addr {
 		if c.Chance(0.6) {
-			return rlV4(byte(lo + c.Intn(20)))
+			return rlyV4(byte(lo + c.Intn(20)))
 		}
-		return rlV6(byte(lo + c.Intn(20)))
+		return rlyV6(byte(lo + c.Intn(20)))
 	}
 	haddrs := []netip.Addr{anyAddr(40)}
-	h := w.AddTunnel(haddrs, rlRandIdx(c), c.Chance(0.8), c.Chance(0.5))
-	init, resp := rlRandIdx(c)+3<<21, rlRandIdx(c)
+	h := w.AddTunnel(haddrs, rlyRandIdx(c), c.Chance(0.8), c.Chance(0.5))
+	init, resp := rlyRandIdx(c)+3<<21, rlyRandIdx(c)
 	// relayTo / relayFrom are whatever the sender says: sometimes me, sometimes its own address
 	relayTo, relayFrom := pick(60), pick(90)
 	if c.Chance(0.2) {
-		relayTo = rlV4(1)
+		relayTo = rlyV4(1)
 	}
 	if c.Chance(0.2) {
-		relayFrom = rlV4(1)
+		relayFrom = rlyV4(1)
 	}
 	peerAddr := anyAddr(100) // the record's PeerAddr
-	s := rlSituation{w: w, h: h, p: -1, hIdx: init, byIdx: true, hKey: peerAddr, pKey: relayTo}
+	s := rlySituation{w: w, h: h, p: -1, hIdx: init, byIdx: true, hKey: peerAddr, pKey: relayTo}
 	if r.Peer >= 0 {
 		var paddrs []netip.Addr
 		switch r.Enc {
 		case 2:
-			paddrs = []netip.Addr{rlV6(byte(130 + c.Intn(10)))}
+			paddrs = []netip.Addr{rlyV6(byte(130 + c.Intn(10)))}
 			if c.Chance(0.5) {
-				paddrs = []netip.Addr{rlV6(byte(130 + c.Intn(10))), peerAddr}
+				paddrs = []netip.Addr{rlyV6(byte(130 + c.Intn(10))), peerAddr}
 			} else {
 				peerAddr = paddrs[0]
 			}
 		case 1:
-			peerAddr = rlV4(byte(100 + c.Intn(20)))
+			peerAddr = rlyV4(byte(100 + c.Intn(20)))
 			paddrs = []netip.Addr{peerAddr}
 			if c.Chance(0.3) {
-				paddrs = append(paddrs, rlV6(131))
+				paddrs = append(paddrs, rlyV6(131))
 			}
 		default:
 			paddrs = []netip.Addr{peerAddr}
@@ -504,14 +504,14 @@ func rlBuildX(c *hx.Ctx, r rlXRow) rlSituation {
 			}
 		}
 		s.hKey = peerAddr
-		s.p = w.AddTunnel(paddrs, rlRandIdx(c), true, c.Chance(0.5))
+		s.p = w.AddTunnel(paddrs, rlyRandIdx(c), true, c.Chance(0.5))
 		if r.Peer > 0 {
-			w.ForceRecord(s.p, relayTo, rlRandIdx(c)+1<<21, rlRandIdx(c), rlTyVals[c.Intn(2)], rlStVals[r.Peer-1])
+			w.ForceRecord(s.p, relayTo, rlyRandIdx(c)+1<<21, rlyRandIdx(c), rlyTyVals[c.Intn(2)], rlyStVals[r.Peer-1])
 		}
 		if c.Chance(0.3) {
 			o := pick(160)
 			if o != relayTo {
-				w.ForceRecord(s.p, o, rlRandIdx(c)+2<<21, rlRandIdx(c), rlTyVals[c.Intn(2)], rlStVals[c.Intn(4)])
+				w.ForceRecord(s.p, o, rlyRandIdx(c)+2<<21, rlyRandIdx(c), rlyTyVals[c.Intn(2)], rlyStVals[c.Intn(4)])
 			}
 		}
 	}
@@ -520,17 +520,17 @@ func rlBuildX(c *hx.Ctx, r rlXRow) rlSituation {
 		if r.Rec%2 == 0 {
 			rem = resp + 1 + uint32(c.Intn(1000))
 		}
-		w.ForceRecord(h, s.hKey, init, rem, rlTyVals[r.Rec/8], rlStVals[(r.Rec/2)%4])
+		w.ForceRecord(h, s.hKey, init, rem, rlyTyVals[r.Rec/8], rlyStVals[(r.Rec/2)%4])
 	}
 	if c.Chance(0.4) {
 		o := anyAddr(190)
 		if o != s.hKey {
-			w.ForceRecord(h, o, rlRandIdx(c)+4<<21, rlRandIdx(c), rlTyVals[c.Intn(2)], rlStVals[c.Intn(4)])
+			w.ForceRecord(h, o, rlyRandIdx(c)+4<<21, rlyRandIdx(c), rlyTyVals[c.Intn(2)], rlyStVals[c.Intn(4)])
 		}
 	}
 	s.wire = nebula.VerifRelayWire{Typ: nebula.VerifRelayCtlResponse, Init: init, Resp: resp}
 	if v1 {
-		s.wire.OldFrom, s.wire.OldTo = rlU32(relayFrom), rlU32(relayTo)
+		s.wire.OldFrom, s.wire.OldTo = rlyU32(relayFrom), rlyU32(relayTo)
 	} else {
 		s.wire.From, s.wire.To = relayFrom, relayTo
 	}
@@ -538,38 +538,38 @@ func rlBuildX(c *hx.Ctx, r rlXRow) rlSituation {
 	return s
 }
 
-// rlRunSituation delivers the message and abstracts what happened.
-func rlRunSituation(c *hx.Ctx, s rlSituation) (rlAct, error) {
+// rlyRunSituation delivers the message and abstracts what happened.
+func rlyRunSituation(c *hx.Ctx, s rlySituation) (rlyAct, error) {
 	before := s.w.Dump()
 	script := []uint32{0xA0000000 + uint32(c.Intn(1<<20)), 0xA1000000 + uint32(c.Intn(1<<20)), 0xA2000000 + uint32(c.Intn(1<<20)), 0xA3000000 + uint32(c.Intn(1<<20))}
 	out := s.w.Deliver(s.h, s.wire.Marshal(), script)
 	if out.Panic != "" {
-		return rlAct{}, fmt.Errorf("handler panicked: %s", out.Panic)
+		return rlyAct{}, fmt.Errorf("handler panicked: %s", out.Panic)
 	}
 	after := s.w.Dump()
 	allowed := map[[2]string]bool{{fmt.Sprint(s.h), s.hKey.String()}: true}
 	if s.p >= 0 {
 		allowed[[2]string{fmt.Sprint(s.p), s.pKey.String()}] = true
 	}
-	if err := rlFrame(before, after, allowed); err != nil {
-		return rlAct{}, err
+	if err := rlyFrame(before, after, allowed); err != nil {
+		return rlyAct{}, err
 	}
-	var a rlAct
+	var a rlyAct
 	var err error
 	var hb, ha *nebula.VerifRelayRec
 	if s.byIdx {
-		hb, ha = rlFindIdx(before.Tunnels[s.h], s.hIdx), rlFindIdx(after.Tunnels[s.h], s.hIdx)
-		a.H, err = rlClassify(hb, ha, s.wire.Resp, false, true)
+		hb, ha = rlyFindIdx(before.Tunnels[s.h], s.hIdx), rlyFindIdx(after.Tunnels[s.h], s.hIdx)
+		a.H, err = rlyClassify(hb, ha, s.wire.Resp, false, true)
 	} else {
-		hb, ha = rlFindRec(before.Tunnels[s.h], s.hKey), rlFindRec(after.Tunnels[s.h], s.hKey)
-		a.H, err = rlClassify(hb, ha, s.wire.Init, true, true)
+		hb, ha = rlyFindRec(before.Tunnels[s.h], s.hKey), rlyFindRec(after.Tunnels[s.h], s.hKey)
+		a.H, err = rlyClassify(hb, ha, s.wire.Init, true, true)
 	}
 	if err != nil {
 		return a, err
 	}
 	a.P = "PNone"
 	if s.p >= 0 {
-		a.P, err = rlClassify(rlFindRec(before.Tunnels[s.p], s.pKey), rlFindRec(after.Tunnels[s.p], s.pKey), 0, false, false)
+		a.P, err = rlyClassify(rlyFindRec(before.Tunnels[s.p], s.pKey), rlyFindRec(after.Tunnels[s.p], s.pKey), 0, false, false)
 		if err != nil {
 			return a, err
 		}
@@ -598,7 +598,7 @@ func rlRunSituation(c *hx.Ctx, s rlSituation) (rlAct, error) {
 	return a, nil
 }
 
-func (s rlSituation) wireTarget() netip.Addr {
+func (s rlySituation) wireTarget() netip.Addr {
 	if s.wire.OldFrom > 0 || s.wire.OldTo > 0 {
 		return netip.AddrFrom4([4]byte{byte(s.wire.OldTo >> 24), byte(s.wire.OldTo >> 16), byte(s.wire.OldTo >> 8), byte(s.wire.OldTo)})
 	}
@@ -607,7 +607,7 @@ func (s rlSituation) wireTarget() netip.Addr {
 
 // ---- gen_relay ------------------------------------------------------------------------------------------
 
-const rlConcretisations = 3
+const rlyConcretisations = 3
 
 func genRelay(c *hx.Ctx) {
 	var sb strings.Builder
@@ -627,12 +627,12 @@ func genRelay(c *hx.Ctx) {
 	fmt.Fprintf(&sb, "(* measured: AddRelay gives up after this many colliding candidates *)\nDefinition add_relay_tries : N := %d.\n\n", tries)
 
 	bad := 0
-	qrows := rlAllQRows()
+	qrows := rlyAllQRows()
 	fmt.Fprintf(&sb, "(* %d rows: handleCreateRelayRequest *)\nDefinition tab_req : list (qrow * act) := [\n", len(qrows))
 	for i, r := range qrows {
-		var first rlAct
-		for k := 0; k < rlConcretisations; k++ {
-			a, err := rlRunSituation(c, rlBuildQ(c, r))
+		var first rlyAct
+		for k := 0; k < rlyConcretisations; k++ {
+			a, err := rlyRunSituation(c, rlyBuildQ(c, r))
 			if err != nil {
 				fmt.Fprintf(os.Stderr, "gen_relay: request row %s: %v\n", r.lit(), err)
 				bad++
@@ -653,12 +653,12 @@ func genRelay(c *hx.Ctx) {
 		fmt.Fprintf(&sb, " (%s, %s)%s\n", r.lit(), first.lit(), sep)
 	}
 	sb.WriteString("].\n\n")
-	xrows := rlAllXRows()
+	xrows := rlyAllXRows()
 	fmt.Fprintf(&sb, "(* %d rows: handleCreateRelayResponse *)\nDefinition tab_resp : list (xrow * act) := [\n", len(xrows))
 	for i, r := range xrows {
-		var first rlAct
-		for k := 0; k < rlConcretisations; k++ {
-			a, err := rlRunSituation(c, rlBuildX(c, r))
+		var first rlyAct
+		for k := 0; k < rlyConcretisations; k++ {
+			a, err := rlyRunSituation(c, rlyBuildX(c, r))
 			if err != nil {
 				fmt.Fprintf(os.Stderr, "gen_relay: response row %s: %v\n", r.lit(), err)
 				bad++
@@ -688,7 +688,7 @@ func genRelay(c *hx.Ctx) {
 
 // ---- relay: rows again + histories ---------------------------------------------------------------------------
 
-type rlTunInfo struct {
+type rlyTunInfo struct {
 	addrs []netip.Addr
 	local uint32
 	valid bool
@@ -696,23 +696,23 @@ type rlTunInfo struct {
 	dead  bool
 }
 
-func rlRecLit(r nebula.VerifRelayRec) string {
-	return hx.Tuple(rlAddr(r.Peer), hx.N(uint64(r.Local)), hx.N(uint64(r.Remote)), rlTyNames[rlTyIdx(r.Type)], rlStNames[rlStIdx(r.State)])
+func rlyRecLit(r nebula.VerifRelayRec) string {
+	return hx.Tuple(rlyAddr(r.Peer), hx.N(uint64(r.Local)), hx.N(uint64(r.Remote)), rlyTyNames[rlyTyIdx(r.Type)], rlyStNames[rlyStIdx(r.State)])
 }
 
-func rlDumpLit(d nebula.VerifRelayDump) (string, bool) {
+func rlyDumpLit(d nebula.VerifRelayDump) (string, bool) {
 	ok := d.Sound
 	var ts []string
 	for id, t := range d.Tunnels {
 		ok = ok && t.Consistent
 		recs := make([]string, len(t.Recs))
 		for i, r := range t.Recs {
-			recs[i] = rlRecLit(r)
+			recs[i] = rlyRecLit(r)
 		}
-		ts = append(ts, hx.Tuple(hx.N(uint64(id)), hx.List(recs), rlAddrs(t.Via)))
+		ts = append(ts, hx.Tuple(hx.N(uint64(id)), hx.List(recs), rlyAddrs(t.Via)))
 	}
 	hosts := append([]nebula.VerifRelayHosts(nil), d.Hosts...)
-	sort.Slice(hosts, func(i, j int) bool { return rlAddrKey(hosts[i].Addr).Cmp(rlAddrKey(hosts[j].Addr)) < 0 })
+	sort.Slice(hosts, func(i, j int) bool { return rlyAddrKey(hosts[i].Addr).Cmp(rlyAddrKey(hosts[j].Addr)) < 0 })
 	var hs []string
 	for _, h := range hosts {
 		ids := make([]string, len(h.IDs))
@@ -723,7 +723,7 @@ func rlDumpLit(d nebula.VerifRelayDump) (string, bool) {
 			}
 			ids[i] = hx.N(uint64(x))
 		}
-		hs = append(hs, hx.Tuple(rlAddr(h.Addr), hx.List(ids)))
+		hs = append(hs, hx.Tuple(rlyAddr(h.Addr), hx.List(ids)))
 	}
 	m2l := func(m map[uint32]int) string {
 		keys := make([]uint32, 0, len(m))
@@ -745,17 +745,17 @@ func rlDumpLit(d nebula.VerifRelayDump) (string, bool) {
 	return hx.App("mkD", hx.Bool(d.Am), hx.List(ts), hx.List(hs), m2l(d.Indexes), m2l(d.Relays)), ok
 }
 
-func rlWireLit(m nebula.VerifRelayWire) string {
+func rlyWireLit(m nebula.VerifRelayWire) string {
 	opt := func(a netip.Addr) string {
 		if !a.IsValid() {
 			return "None"
 		}
-		return hx.Some(rlAddr(a))
+		return hx.Some(rlyAddr(a))
 	}
 	return hx.App("mkW", hx.N(uint64(m.Typ)), hx.N(uint64(m.OldFrom)), hx.N(uint64(m.OldTo)), opt(m.From), opt(m.To), hx.N(uint64(m.Init)), hx.N(uint64(m.Resp)))
 }
 
-func rlSendsLit(ss []nebula.VerifRelaySend) (string, bool) {
+func rlySendsLit(ss []nebula.VerifRelaySend) (string, bool) {
 	ok := true
 	var l []string
 	for _, s := range ss {
@@ -763,56 +763,56 @@ func rlSendsLit(ss []nebula.VerifRelaySend) (string, bool) {
 			ok = false
 			continue
 		}
-		l = append(l, hx.App("mkO", hx.N(uint64(s.To)), hx.N(uint64(s.Typ)), hx.Bool(s.V1), rlAddr(s.From), rlAddr(s.To2), hx.N(uint64(s.Init)), hx.N(uint64(s.Resp))))
+		l = append(l, hx.App("mkO", hx.N(uint64(s.To)), hx.N(uint64(s.Typ)), hx.Bool(s.V1), rlyAddr(s.From), rlyAddr(s.To2), hx.N(uint64(s.Init)), hx.N(uint64(s.Resp))))
 	}
 	return hx.List(l), ok
 }
 
-type rlHist struct {
+type rlyHist struct {
 	c       *hx.Ctx
 	w       *nebula.VerifRelayWorld
 	me      []netip.Addr
-	tuns    []rlTunInfo
+	tuns    []rlyTunInfo
 	steps   []string
 	descs   []string
-	queue   []rlQueued // replies the peers owe
-	sent    []rlQueued // everything delivered so far (for duplicates)
+	queue   []rlyQueued // replies the peers owe
+	sent    []rlyQueued // everything delivered so far (for duplicates)
 	implBad []string
 	kinds   map[string]int
 	hits    int
 	deep    int
 }
 
-type rlQueued struct {
+type rlyQueued struct {
 	tun  int
 	wire nebula.VerifRelayWire
 }
 
-var rlPool4 = []byte{2, 3, 4, 5, 6, 7}
-var rlPool6 = []byte{2, 3, 4}
+var rlyPool4 = []byte{2, 3, 4, 5, 6, 7}
+var rlyPool6 = []byte{2, 3, 4}
 
-func (h *rlHist) poolAddr() netip.Addr {
+func (h *rlyHist) poolAddr() netip.Addr {
 	c := h.c
 	if c.Chance(0.75) {
-		return rlV4(rlPool4[c.Intn(len(rlPool4))])
+		return rlyV4(rlyPool4[c.Intn(len(rlyPool4))])
 	}
-	return rlV6(rlPool6[c.Intn(len(rlPool6))])
+	return rlyV6(rlyPool6[c.Intn(len(rlyPool6))])
 }
 
-func (h *rlHist) anyAddr() netip.Addr {
+func (h *rlyHist) anyAddr() netip.Addr {
 	c := h.c
 	switch {
 	case c.Chance(0.1):
 		return h.me[c.Intn(len(h.me))]
 	case c.Chance(0.08):
-		return rlV4(byte(200 + c.Intn(50)))
+		return rlyV4(byte(200 + c.Intn(50)))
 	case c.Chance(0.04):
 		return netip.AddrFrom4([4]byte{byte(c.Intn(256)), byte(c.Intn(256)), byte(c.Intn(256)), byte(c.Intn(256))})
 	}
 	return h.poolAddr()
 }
 
-func (h *rlHist) liveTunnels() []int {
+func (h *rlyHist) liveTunnels() []int {
 	var l []int
 	for i, t := range h.tuns {
 		if !t.dead {
@@ -822,7 +822,7 @@ func (h *rlHist) liveTunnels() []int {
 	return l
 }
 
-func (h *rlHist) script() []uint32 {
+func (h *rlyHist) script() []uint32 {
 	c := h.c
 	var s []uint32
 	if c.Chance(0.15) {
@@ -841,7 +841,7 @@ func (h *rlHist) script() []uint32 {
 	return s
 }
 
-func rlStream(script, served []uint32) []uint32 {
+func rlyStream(script, served []uint32) []uint32 {
 	if len(served) > len(script) {
 		return served
 	}
@@ -849,7 +849,7 @@ func rlStream(script, served []uint32) []uint32 {
 }
 
 // interesting relay indexes: every local index of every record, every Relays key, a few strangers
-func rlIdxSet(d nebula.VerifRelayDump, extra []uint32) []uint32 {
+func rlyIdxSet(d nebula.VerifRelayDump, extra []uint32) []uint32 {
 	m := map[uint32]bool{}
 	for _, t := range d.Tunnels {
 		for _, r := range t.Recs {
@@ -871,25 +871,25 @@ func rlIdxSet(d nebula.VerifRelayDump, extra []uint32) []uint32 {
 }
 
 // observe dumps the state and probes forwarding for every (tunnel, index) pair.
-func (h *rlHist) observe(opLit string, out nebula.VerifRelayOut, desc string) {
+func (h *rlyHist) observe(opLit string, out nebula.VerifRelayOut, desc string) {
 	d := h.w.Dump()
-	dl, ok := rlDumpLit(d)
+	dl, ok := rlyDumpLit(d)
 	if !ok {
 		h.implBad = append(h.implBad, "hostmap / relay maps inconsistent after "+desc)
 	}
 	if out.Panic != "" {
 		h.implBad = append(h.implBad, "panic: "+out.Panic)
 	}
-	sl, sok := rlSendsLit(out.Sends)
+	sl, sok := rlySendsLit(out.Sends)
 	if !sok || out.Other != 0 {
 		h.implBad = append(h.implBad, "control message to an unknown tunnel / stray packet after "+desc)
 	}
 	hs := "None"
 	if out.Handshake.IsValid() {
-		hs = hx.Some(rlAddr(out.Handshake))
+		hs = hx.Some(rlyAddr(out.Handshake))
 	}
 	extra := []uint32{uint32(1 + h.c.Intn(70000))}
-	idxs := rlIdxSet(d, extra)
+	idxs := rlyIdxSet(d, extra)
 	var hits []string
 	for id := range h.tuns {
 		for _, idx := range idxs {
@@ -934,29 +934,29 @@ func (h *rlHist) observe(opLit string, out nebula.VerifRelayOut, desc string) {
 			}
 		}
 	}
-	h.steps = append(h.steps, hx.Tuple(opLit, hx.App("mkObs", sl, hs, dl, rlU32s(extra), hx.List(hits), hx.List(pk))))
+	h.steps = append(h.steps, hx.Tuple(opLit, hx.App("mkObs", sl, hs, dl, rlyU32s(extra), hx.List(hits), hx.List(pk))))
 	h.descs = append(h.descs, desc)
 }
 
-func (h *rlHist) addTunnel(addrs []netip.Addr, local uint32, valid, v1 bool) int {
+func (h *rlyHist) addTunnel(addrs []netip.Addr, local uint32, valid, v1 bool) int {
 	id := h.w.AddTunnel(addrs, local, valid, v1)
 	if id != len(h.tuns) {
 		panic("tunnel ids out of step")
 	}
-	h.tuns = append(h.tuns, rlTunInfo{addrs: addrs, local: local, valid: valid, v1: v1})
-	h.observe(hx.App("OAdd", hx.N(uint64(id)), rlAddrs(addrs), hx.N(uint64(local)), hx.Bool(valid), hx.Bool(v1)), nebula.VerifRelayOut{},
+	h.tuns = append(h.tuns, rlyTunInfo{addrs: addrs, local: local, valid: valid, v1: v1})
+	h.observe(hx.App("OAdd", hx.N(uint64(id)), rlyAddrs(addrs), hx.N(uint64(local)), hx.Bool(valid), hx.Bool(v1)), nebula.VerifRelayOut{},
 		fmt.Sprintf("add %d %v local=%d valid=%v v1=%v", id, addrs, local, valid, v1))
 	h.kinds["add"]++
 	return id
 }
 
-func (h *rlHist) deliver(tun int, m nebula.VerifRelayWire, kind string) nebula.VerifRelayOut {
+func (h *rlyHist) deliver(tun int, m nebula.VerifRelayWire, kind string) nebula.VerifRelayOut {
 	script := h.script()
 	out := h.w.Deliver(tun, m.Marshal(), script)
-	cs := rlStream(script, out.Served)
-	h.observe(hx.App("OMsg", hx.N(uint64(tun)), rlWireLit(m), rlU32s(cs)), out, fmt.Sprintf("%s on %d: %+v", kind, tun, m))
+	cs := rlyStream(script, out.Served)
+	h.observe(hx.App("OMsg", hx.N(uint64(tun)), rlyWireLit(m), rlyU32s(cs)), out, fmt.Sprintf("%s on %d: %+v", kind, tun, m))
 	h.kinds[kind]++
-	h.sent = append(h.sent, rlQueued{tun, m})
+	h.sent = append(h.sent, rlyQueued{tun, m})
 	// the peers answer what this node asked them
 	for _, s := range out.Sends {
 		if s.To < 0 {
@@ -965,11 +965,11 @@ func (h *rlHist) deliver(tun int, m nebula.VerifRelayWire, kind string) nebula.V
 		if s.Typ == nebula.VerifRelayCtlRequest && h.c.Chance(0.85) {
 			r := nebula.VerifRelayWire{Typ: nebula.VerifRelayCtlResponse, Init: s.Init, Resp: uint32(100000 + h.c.Intn(60000))}
 			if s.V1 {
-				r.OldFrom, r.OldTo = rlU32(s.From), rlU32(s.To2)
+				r.OldFrom, r.OldTo = rlyU32(s.From), rlyU32(s.To2)
 			} else {
 				r.From, r.To = s.From, s.To2
 			}
-			h.queue = append(h.queue, rlQueued{s.To, r})
+			h.queue = append(h.queue, rlyQueued{s.To, r})
 		}
 	}
 	if len(out.Sends) > 0 {
@@ -978,17 +978,17 @@ func (h *rlHist) deliver(tun int, m nebula.VerifRelayWire, kind string) nebula.V
 	return out
 }
 
-func (h *rlHist) mkWire(typ int, from, to netip.Addr, init, resp uint32, v1 bool) nebula.VerifRelayWire {
+func (h *rlyHist) mkWire(typ int, from, to netip.Addr, init, resp uint32, v1 bool) nebula.VerifRelayWire {
 	m := nebula.VerifRelayWire{Typ: typ, Init: init, Resp: resp}
 	if v1 && from.Is4() && to.Is4() {
-		m.OldFrom, m.OldTo = rlU32(from), rlU32(to)
+		m.OldFrom, m.OldTo = rlyU32(from), rlyU32(to)
 	} else {
 		m.From, m.To = from, to
 	}
 	return m
 }
 
-func (h *rlHist) someIndex() uint32 {
+func (h *rlyHist) someIndex() uint32 {
 	d := h.w.Dump()
 	var all []uint32
 	for _, t := range d.Tunnels {
@@ -1002,7 +1002,7 @@ func (h *rlHist) someIndex() uint32 {
 	return uint32(1 + h.c.Intn(70000))
 }
 
-func (h *rlHist) stepOnce() {
+func (h *rlyHist) stepOnce() {
 	c := h.c
 	live := h.liveTunnels()
 	r := c.Intn(100)
@@ -1069,7 +1069,7 @@ func (h *rlHist) stepOnce() {
 			m.To = netip.Addr{}
 		}
 		if c.Chance(0.05) && m.OldFrom == 0 && m.OldTo == 0 {
-			m.OldTo = rlU32(rlV4(rlPool4[c.Intn(len(rlPool4))]))
+			m.OldTo = rlyU32(rlyV4(rlyPool4[c.Intn(len(rlyPool4))]))
 		}
 		h.deliver(t, m, "hostile")
 	case r < 88 && len(h.tuns) > 0:
@@ -1090,7 +1090,7 @@ func (h *rlHist) stepOnce() {
 		relay, vpn := h.poolAddr(), h.poolAddr()
 		script := h.script()
 		out := h.w.Start(relay, vpn, script)
-		h.observe(hx.App("OStart", rlAddr(relay), rlAddr(vpn), rlU32s(rlStream(script, out.Served))), out, fmt.Sprintf("start relay=%s vpn=%s", relay, vpn))
+		h.observe(hx.App("OStart", rlyAddr(relay), rlyAddr(vpn), rlyU32s(rlyStream(script, out.Served))), out, fmt.Sprintf("start relay=%s vpn=%s", relay, vpn))
 		h.kinds["start"]++
 	default:
 		if len(h.tuns) == 0 {
@@ -1099,26 +1099,26 @@ func (h *rlHist) stepOnce() {
 		t := c.Intn(len(h.tuns))
 		ip := h.poolAddr()
 		h.w.InsertVia(t, ip)
-		h.observe(hx.App("OVia", hx.N(uint64(t)), rlAddr(ip)), nebula.VerifRelayOut{}, fmt.Sprintf("via %d %s", t, ip))
+		h.observe(hx.App("OVia", hx.N(uint64(t)), rlyAddr(ip)), nebula.VerifRelayOut{}, fmt.Sprintf("via %d %s", t, ip))
 		h.kinds["via"]++
 	}
 }
 
-func rlNewHist(c *hx.Ctx, me []netip.Addr, am bool) *rlHist {
-	return &rlHist{c: c, w: nebula.VerifRelayNewWorld(me, am), me: me, kinds: map[string]int{}}
+func rlyNewHist(c *hx.Ctx, me []netip.Addr, am bool) *rlyHist {
+	return &rlyHist{c: c, w: nebula.VerifRelayNewWorld(me, am), me: me, kinds: map[string]int{}}
 }
 
-func (h *rlHist) lit(am bool) string {
-	return hx.App("Relay_corr.CHist", rlAddrs(h.me), hx.Bool(am), hx.List(h.steps))
+func (h *rlyHist) lit(am bool) string {
+	return hx.App("Relay_corr.CHist", rlyAddrs(h.me), hx.Bool(am), hx.List(h.steps))
 }
 
 // a scripted history: the three-party set-up, traffic both ways, tunnel loss and re-establishment
-func rlHappy(c *hx.Ctx, v1, second bool) (*rlHist, bool) {
-	me := []netip.Addr{rlV4(1)}
-	h := rlNewHist(c, me, true)
-	i := h.addTunnel([]netip.Addr{rlV4(2)}, 11, true, v1)
-	t := h.addTunnel([]netip.Addr{rlV4(3)}, 12, true, v1)
-	out := h.deliver(i, h.mkWire(nebula.VerifRelayCtlRequest, rlV4(2), rlV4(3), 501, 0, v1), "request")
+func rlyHappy(c *hx.Ctx, v1, second bool) (*rlyHist, bool) {
+	me := []netip.Addr{rlyV4(1)}
+	h := rlyNewHist(c, me, true)
+	i := h.addTunnel([]netip.Addr{rlyV4(2)}, 11, true, v1)
+	t := h.addTunnel([]netip.Addr{rlyV4(3)}, 12, true, v1)
+	out := h.deliver(i, h.mkWire(nebula.VerifRelayCtlRequest, rlyV4(2), rlyV4(3), 501, 0, v1), "request")
 	h.queue = nil
 	if len(out.Sends) == 1 {
 		s := out.Sends[0]
@@ -1126,7 +1126,7 @@ func rlHappy(c *hx.Ctx, v1, second bool) (*rlHist, bool) {
 		h.queue = nil
 	}
 	if second {
-		h.deliver(i, h.mkWire(nebula.VerifRelayCtlRequest, rlV4(2), rlV4(3), 501, 0, v1), "duplicate")
+		h.deliver(i, h.mkWire(nebula.VerifRelayCtlRequest, rlyV4(2), rlyV4(3), 501, 0, v1), "duplicate")
 		for len(h.queue) > 0 {
 			q := h.queue[0]
 			h.queue = h.queue[1:]
@@ -1135,9 +1135,9 @@ func rlHappy(c *hx.Ctx, v1, second bool) (*rlHist, bool) {
 		h.w.DelTunnel(t)
 		h.tuns[t].dead = true
 		h.observe(hx.App("ODel", hx.N(uint64(t))), nebula.VerifRelayOut{}, "delete target")
-		t2 := h.addTunnel([]netip.Addr{rlV4(3)}, 13, true, v1)
+		t2 := h.addTunnel([]netip.Addr{rlyV4(3)}, 13, true, v1)
 		_ = t2
-		h.deliver(i, h.mkWire(nebula.VerifRelayCtlRequest, rlV4(2), rlV4(3), 501, 0, v1), "request")
+		h.deliver(i, h.mkWire(nebula.VerifRelayCtlRequest, rlyV4(2), rlyV4(3), 501, 0, v1), "request")
 		for len(h.queue) > 0 {
 			q := h.queue[0]
 			h.queue = h.queue[1:]
@@ -1148,14 +1148,14 @@ func rlHappy(c *hx.Ctx, v1, second bool) (*rlHist, bool) {
 }
 
 // a tunnel asks for a relay to its own address and confirms it itself: its packets come back to it
-func rlSelf(c *hx.Ctx) *rlHist {
-	h := rlNewHist(c, []netip.Addr{rlV4(1)}, true)
-	x := h.addTunnel([]netip.Addr{rlV4(2)}, 11, true, false)
-	out := h.deliver(x, h.mkWire(nebula.VerifRelayCtlRequest, rlV4(9), rlV4(2), 501, 0, false), "self-request")
+func rlySelf(c *hx.Ctx) *rlyHist {
+	h := rlyNewHist(c, []netip.Addr{rlyV4(1)}, true)
+	x := h.addTunnel([]netip.Addr{rlyV4(2)}, 11, true, false)
+	out := h.deliver(x, h.mkWire(nebula.VerifRelayCtlRequest, rlyV4(9), rlyV4(2), 501, 0, false), "self-request")
 	h.queue = nil
 	d := h.w.Dump()
 	for _, r := range d.Tunnels[x].Recs {
-		h.deliver(x, h.mkWire(nebula.VerifRelayCtlResponse, rlV4(2), rlV4(2), r.Local, 777, false), "self-confirm")
+		h.deliver(x, h.mkWire(nebula.VerifRelayCtlResponse, rlyV4(2), rlyV4(2), r.Local, 777, false), "self-confirm")
 		h.queue = nil
 	}
 	_ = out
@@ -1174,9 +1174,9 @@ func runRelay(c *hx.Ctx) {
 		cw.Add(hx.App("Relay_corr.CRows", hx.List(rowLits)), "rows", true, map[string]any{"op": "rows", "n": len(rowLits)})
 		rowLits = nil
 	}
-	for _, r := range rlAllQRows() {
-		s := rlBuildQ(c, r)
-		a, err := rlRunSituation(c, s)
+	for _, r := range rlyAllQRows() {
+		s := rlyBuildQ(c, r)
+		a, err := rlyRunSituation(c, s)
 		if err != nil {
 			failures = append(failures, map[string]any{"i": cw.Total(), "code": 1, "what": err.Error(), "situation": s.desc})
 			continue
@@ -1186,9 +1186,9 @@ func runRelay(c *hx.Ctx) {
 			flushRows()
 		}
 	}
-	for _, r := range rlAllXRows() {
-		s := rlBuildX(c, r)
-		a, err := rlRunSituation(c, s)
+	for _, r := range rlyAllXRows() {
+		s := rlyBuildX(c, r)
+		a, err := rlyRunSituation(c, s)
 		if err != nil {
 			failures = append(failures, map[string]any{"i": cw.Total(), "code": 1, "what": err.Error(), "situation": s.desc})
 			continue
@@ -1200,7 +1200,7 @@ func runRelay(c *hx.Ctx) {
 	}
 	flushRows()
 	// 2. scripted histories
-	add := func(h *rlHist, am bool, kind string, nontrivial bool) {
+	add := func(h *rlyHist, am bool, kind string, nontrivial bool) {
 		for _, b := range h.implBad {
 			failures = append(failures, map[string]any{"i": cw.Total(), "code": 2, "what": b})
 		}
@@ -1208,23 +1208,23 @@ func runRelay(c *hx.Ctx) {
 	}
 	for _, v1 := range []bool{false, true} {
 		for _, second := range []bool{false, true} {
-			h, fw := rlHappy(c, v1, second)
+			h, fw := rlyHappy(c, v1, second)
 			if !fw {
 				failures = append(failures, map[string]any{"i": cw.Total(), "code": 1, "what": "the scripted three-party set-up did not lead to forwarding"})
 			}
 			add(h, true, "scripted", true)
 		}
 	}
-	add(rlSelf(c), true, "self-relay", true)
+	add(rlySelf(c), true, "self-relay", true)
 	// 3. random histories
 	deepHist := 0
 	for i := 0; i < c.N; i++ {
-		me := []netip.Addr{rlV4(1)}
+		me := []netip.Addr{rlyV4(1)}
 		if c.Chance(0.3) {
-			me = append(me, rlV6(1))
+			me = append(me, rlyV6(1))
 		}
 		am := c.Chance(0.85)
-		h := rlNewHist(c, me, am)
+		h := rlyNewHist(c, me, am)
 		n := 10 + c.Intn(18)
 		// start with a few tunnels so that most messages reach the deep branches
 		for k := 0; k < 2+c.Intn(2); k++ {
